@@ -192,6 +192,17 @@ class Fn(object):
         cache[key] = out
         return out
 
+    def temp_defs(self):
+        """name -> defining expression (AST) of the single-definition, never-modified locals."""
+        if getattr(self, '_temp_defs', None) is None:
+            cd = self.cdefs()
+            out = {}
+            for st_ in self.stmts(ast.Assign):
+                if len(st_.targets) == 1 and isinstance(st_.targets[0], ast.Name) and st_.targets[0].id in cd:
+                    out[st_.targets[0].id] = st_.value
+            self._temp_defs = out
+        return self._temp_defs
+
     def eqv(self, expr, spec, metas=(), fixed=None, env=None, **normkw):
         """Does code expression `expr` compute the documented expression `spec` (source string or normal
         form), up to temporaries introduced by the code?  Returns the binding of `metas` or None."""
@@ -250,7 +261,12 @@ def guards(fn, mentions=None, exc=None, root=None):
         if exc is not None and not (raised_types(br[1]) & set(exc)):
             continue
         if mentions is not None and not mentions(st.test):
-            continue
+            # the test may be written through temporaries (`n = data.shape[0]; if n < k`): look at it with them written out
+            try:
+                if not mentions(expand_temps_ast(fn, st.test)):
+                    continue
+            except Exception:
+                continue
         out.append((st, br[0]))
     return out
 
@@ -263,6 +279,22 @@ def guard_dominates(fn, ifstmt, passing, sink_ast):
 
 def names_in(expr):
     return {n.id for n in ast.walk(expr) if isinstance(n, ast.Name)}
+
+
+def expand_temps_ast(fn, expr, depth=0):
+    """Copy of `expr` with the function's single-definition temporaries written out (AST level)."""
+    import copy as _copy
+    tdefs = fn.temp_defs()
+
+    class T(ast.NodeTransformer):
+        def __init__(self, d):
+            self.d = d
+
+        def visit_Name(self, n):
+            if isinstance(n.ctx, ast.Load) and n.id in tdefs and self.d < 6:
+                return T(self.d + 1).visit(_copy.deepcopy(tdefs[n.id]))
+            return n
+    return T(depth).visit(_copy.deepcopy(expr))
 
 
 def strings_in(expr):
@@ -549,12 +581,43 @@ def inventory(fn, rule, items, metas, root=None, fixed=None, required=True, orde
                         alt.setdefault(id(s_), []).append(a_nf)
                 except AnalysisError:
                     pass
+            # third reading: the code's single-definition temporaries written out (roles keep their names when
+            # they are defined more than once; a role with one definition is recovered by expansion of the pattern)
+            try:
+                tg = {n_.id for t_ in (s_.targets if isinstance(s_, ast.Assign) else []) for n_ in ast.walk(t_) if isinstance(n_, ast.Name)}
+                a_nf = sym.expand_temps(nf_, cdefs, skip=tg)
+                if a_nf != nf_ and a_nf not in alt.get(id(s_), []):
+                    alt.setdefault(id(s_), []).append(a_nf)
+            except Exception:
+                pass
         elif isinstance(s_, ast.If) and not s_.orelse and nf_[0] == 'if':
             # `if c: continue` + rest  and  `if not c: rest`  are one construct: an `if` item also matches
             # the opposite test (the run conditions of the dependent statements are decided by CONTEXT)
             alt[id(s_)] = [('if', sym.negate(nf_[1]))]
     best = {'n': -1, 'binding': {}, 'matched': {}}
     via_alt = {}
+
+    ldefs_cache = {}
+
+    def ldefs_of(s_):
+        """locals used by the statement that have exactly one (plain, unmodified) reaching definition there"""
+        if id(s_) in ldefs_cache:
+            return ldefs_cache[id(s_)]
+        out = {}
+        node = fn.cfg.node_containing(s_)
+        if node is not None and not isinstance(s_, (ast.For, ast.While)):
+            root_ = s_.test if isinstance(s_, ast.If) else s_
+            for x in ast.walk(root_):
+                if isinstance(x, ast.Name) and isinstance(x.ctx, ast.Load) and x.id not in out and x.id not in cdefs:
+                    try:
+                        r = fn.resolver(s_)(x)
+                    except Exception:
+                        r = None
+                    v = getattr(r, 'expr', None)
+                    if v is not None and not isinstance(v, ast.Lambda):
+                        out[x.id] = mkN().n(v)
+        ldefs_cache[id(s_)] = out
+        return out
 
     def solve(i, binding, matched, skipped):
         if len(matched) > best['n']:
@@ -572,6 +635,8 @@ def inventory(fn, rule, items, metas, root=None, fixed=None, required=True, orde
             if any(s is m for m in matched.values()):
                 continue
             done = False
+            metas.ldefs = ldefs_of(s)
+            metas.cur = id(s)
             for cand in ([nf] + alt.get(id(s), [])):
                 for b in sym._unify(pat, cand, binding, metas):
                     matched[inst] = s
@@ -598,6 +663,15 @@ def inventory(fn, rule, items, metas, root=None, fixed=None, required=True, orde
         for inst_, st_ in best['matched'].items():
             if via_alt.get(inst_):
                 _document_inlined(fn, st_, 0)
+        by_id = {id(st_): st_ for st_ in best['matched'].values()}
+        for sid, nm in best['binding'].get('__ldefs__', ()):
+            st_ = by_id.get(sid)
+            node_ = fn.cfg.node_containing(st_) if st_ is not None else None
+            if node_ is not None:
+                ds_ = list(fn.rd.reaching(node_, nm))
+                if len(ds_) == 1 and ds_[0].kind != 'entry' and isinstance(ds_[0].ast, ast.Assign):
+                    fn.cx.documented.add(id(ds_[0].ast))
+                    _document_inlined(fn, ds_[0].ast, 1)
         _roles_not_redefined(fn, rule, best['matched'], best['binding'], root, extra_defs_ok, tuple(fixed or ()))
         context_obligations(fn, rule, best['matched'], best['binding'], root)
         out = dict(best['binding'])
